@@ -43,7 +43,7 @@ MANIFEST = {
     "technique": "exhaustive fault/crash-point enumeration with deterministic step budget",
 }
 
-BUDGET = 300000
+BUDGET = 600000
 
 # ---------------------------------------------------------------------------
 # seeds
